@@ -10,6 +10,8 @@ Open Scope N_scope.
 
 (* what a record shows to the filter: its owner and, for an NSEC record, the next domain name *)
 Inductive rr_names : I_RR -> name -> option name -> Prop :=
+| rn_soa v o : T_RR_Header_Name (T_SOA_Hdr v) = pres o -> plain o -> rr_names (I_RR_of_SOA v) o None
+| rn_ns v o : T_RR_Header_Name (T_NS_Hdr v) = pres o -> plain o -> rr_names (I_RR_of_NS v) o None
 | rn_other tag h o : T_RR_Header_Name h = pres o -> plain o -> rr_names (I_RR_other tag h) o None
 | rn_nsec v o nx : T_RR_Header_Name (T_NSEC_Hdr v) = pres o -> T_NSEC_NextDomain v = pres nx -> plain o -> plain nx ->
                    rr_names (I_RR_of_NSEC v) o (Some nx).
@@ -47,7 +49,17 @@ Proof.
     inversion Hv as [|? ? Hp Hrest]; subst.
     destruct p as [rr [o nx]]. unfold view_ok in Hp. cbn [fst snd] in Hp |- *.
     cbn [filter]. unfold keep_in_zone at 1. cbn [fst snd].
-    inversion Hp as [tag h o' Hname Ho | v o' nx' Hname Hnext Ho Hnx]; subst; cbn [I_RR_Header].
+    inversion Hp as [v o' Hname Ho | v o' Hname Ho | tag h o' Hname Ho | v o' nx' Hname Hnext Ho Hnx]; subst; cbn [I_RR_Header].
+    + rewrite Hname, (name_in_zone_pres fuel zone o Hf Hz Ho).
+      destruct (is_sub zone o); cbn [negb andb].
+      * rewrite Ei, Enext. rewrite (IH (pre ++ [(I_RR_of_SOA v, (o, None))]) _ lf Hrest Hlf').
+        cbn [map fst]. rewrite <- app_assoc. reflexivity.
+      * rewrite Ei, Enext. apply (IH (pre ++ [(I_RR_of_SOA v, (o, None))]) _ lf Hrest Hlf').
+    + rewrite Hname, (name_in_zone_pres fuel zone o Hf Hz Ho).
+      destruct (is_sub zone o); cbn [negb andb].
+      * rewrite Ei, Enext. rewrite (IH (pre ++ [(I_RR_of_NS v, (o, None))]) _ lf Hrest Hlf').
+        cbn [map fst]. rewrite <- app_assoc. reflexivity.
+      * rewrite Ei, Enext. apply (IH (pre ++ [(I_RR_of_NS v, (o, None))]) _ lf Hrest Hlf').
     + rewrite Hname, (name_in_zone_pres fuel zone o Hf Hz Ho).
       destruct (is_sub zone o); cbn [negb andb].
       * rewrite Ei, Enext. rewrite (IH (pre ++ [(I_RR_other tag h, (o, None))]) _ lf Hrest Hlf').
